@@ -33,8 +33,8 @@ func (Prop) Rule() string {
 		"every 6-bit value at the 43 base-mult positions, every 6-bit (5-bit Booth digit + carry bit) value at 52 positions of stride 5, every 4-bit value at 64 positions, each of these alone and with all higher bits up to 2^256 set, " +
 		"runs 1^a0^(256-a), runs between all pairs of 32/64-bit limb edges, every subset of five all-ones 64-bit limbs and single limbs +-1, all-ones / 0x80.. / 0x01.. of every byte length 1..40, and an SM3-chain of dense scalars of 31/32/40 bytes. " +
 		"Points: infinity, kG and (n-k)G for k=1..20, nearest on-curve abscissae above/below 0, p-1, 2^32, 2^64, 2^96, 2^128, 2^192, 2^224, 2^255, 2^256-2^224 in both parities, points with y=small and y=p-small, SM3-chain points. " +
-		"Enumerated: Add on all ordered pairs and Double on all points; ScalarBaseMult on all scalars x encodings; ScalarMult on all scalars x 12 points; CombinedMult on an NxN scalar sub-product x 5 points (N=200 thorough, 64 quick); Inverse on all scalars (k mod n != 0: k*inv = 1 mod n and inv<n; k = 0 mod n: no panic); " +
-		"ecdh.NewPrivateKey / sm2.NewPrivateKey / sm2.NewPrivateKeyFromInt on all scalars x encodings (accept iff 32 bytes and 1<=d<=n-2; d=n-1 may go either way for ecdh; public key = [d]G), ecdh.PrivateKey.ECDH = x([d]Q). " +
+		"Enumerated: Add on all ordered pairs and Double on all points; ScalarBaseMult on all scalars x encodings; ScalarMult on all scalars x 12 points, and on every point of the alphabet x {0..70, order family, limb patterns, every Booth-6 window value at every position} (quick: first two families); CombinedMult on an NxN scalar sub-product x 5 points (N=200 thorough, 64 quick); Inverse on all scalars (k mod n != 0: k*inv = 1 mod n and inv<n; k = 0 mod n: no panic); " +
+		"ecdh.NewPrivateKey / sm2.NewPrivateKey / sm2.NewPrivateKeyFromInt on all scalars x encodings and on -1..-70 (accept iff 32 bytes and 1<=d<=n-2; d=n-1 may go either way for ecdh; public key = [d]G), ecdh.PrivateKey.ECDH = x([d]Q). " +
 		"Decoders (Unmarshal, UnmarshalCompressed, sm2.NewPublicKey, ecdh.P256().NewPublicKey, IsOnCurve): per point every first byte 0..255 on the 65-, 33- and 1-byte bodies, every length 0..70 (truncated / zero-, ff- and self-extended), " +
 		"x or y replaced by p, p+coordinate, 2^256-1, coordinate+-1, every single-bit flip of x and y, swapped coordinates; accept iff canonical encoding of an on-curve point in a form the decoder documents; decoded value exact; re-encoding is the identity. " +
 		"distinct_nontrivial counts distinct (operation, scalar family, length class, point) classes plus decoder mutation classes."
@@ -46,7 +46,7 @@ func (Prop) Assumptions() []string {
 		"only affine (z=1) inputs can be presented through the public APIs; Jacobian/projective intermediate representations are reached only inside the scalar multiplications",
 		"this tree uses 6-bit Booth windows (43 windows) in the assembly AND the purego backend; the 5-bit/4-bit window families of the design are enumerated anyway",
 		"dispatch tiers reachable on this amd64 host only (ADX/BMI2 asm, plain asm, AVX2/non-AVX2 table select, purego fiat); arm64/s390x/ppc64le assembly is not covered",
-		"quick tier: ScalarMult uses one encoding per scalar on 10 of the 12 points (all encodings on two), CombinedMult sub-product 64x64, 64 instead of 256 chain scalars; thorough tier: everything as stated in the rule",
+		"quick tier: ScalarMult runs the full scalar alphabet on 3 of the 12 points (G and chain#0 with all encodings, smally#0 with one) and on the other 9 points the small/order families plus every 6th scalar of the rest with one encoding; CombinedMult sub-product 64x64; 64 instead of 256 chain scalars; ECDH against 1 instead of 3 points; 9 instead of 12 decoder seed points. thorough tier: everything as stated in the rule",
 	}
 }
 
@@ -215,12 +215,18 @@ func (Prop) Run(c *engine.Ctx) {
 	for pi, p := range mp {
 		pi, p := pi, p
 		allEnc := !quick || pi == 0 || pi == 10
+		// quick tier: the full alphabet on three points (G, smally#0, chain#0); on the other nine the small/order
+		// families and every 6th scalar of the rest (declared in Assumptions)
+		secondary := quick && !(pi == 0 || pi == 8 || pi == 10)
 		for lo := 0; lo < len(scalars); lo += chunk {
 			lo, hi := lo, min(lo+chunk, len(scalars))
 			c.Case("scalarmult/P="+p.name+"/"+chunkName(lo, hi), func(t *engine.T) {
 				tp := newMulTable(ref, p.p)
 				px, py := affine(p.p)
-				for _, s := range scalars[lo:hi] {
+				for si, s := range scalars[lo:hi] {
+					if secondary && s.family != "small" && s.family != "order" && (lo+si)%6 != 0 {
+						continue
+					}
 					want := tp.mul(s.v)
 					encs := [][]byte{primary(s.v)}
 					if allEnc {
@@ -251,6 +257,36 @@ func (Prop) Run(c *engine.Ctx) {
 				}
 			})
 		}
+	}
+
+	// ---- ScalarMult on every point of the alphabet with the families that exercise the per-point table -------
+	for _, p := range pts {
+		p := p
+		c.Case("scalarmult-allpoints/P="+p.name, func(t *engine.T) {
+			tp := newMulTable(ref, p.p)
+			px, py := affine(p.p)
+			for _, s := range scalars {
+				switch s.family {
+				case "small", "order":
+				case "limb", "w7booth6/lo":
+					if quick {
+						continue
+					}
+				default:
+					continue
+				}
+				want := tp.mul(s.v)
+				enc := primary(s.v)
+				t.Guard("scalarmult", func() {
+					x, y := curve.ScalarMult(px, py, enc)
+					if !sameAffine(x, y, want) {
+						t.Fail("scalarmult/mismatch/"+s.family+"/"+lenClass(len(enc))+"/P="+pointClass(p.name), "ScalarMult(%s, %x (%d bytes)) = %s want %s", p.name, enc, len(enc), pstr(x, y), rstr(want))
+					}
+				})
+				t.Eval(1)
+				t.Nontrivial("scalarmult/" + s.family + "/" + lenClass(len(enc)) + "/" + p.name)
+			}
+		})
 	}
 
 	// ---- CombinedMult --------------------------------------------------------------------------------
@@ -440,6 +476,15 @@ func (Prop) Run(c *engine.Ctx) {
 						}
 					})
 					t.Nontrivial("ctor/" + cls)
+				}
+				if s.family == "small" && s.v.Sign() > 0 {
+					t.Guard("ctor/sm2.NewPrivateKeyFromInt", func() {
+						neg := new(big.Int).Neg(s.v)
+						t.Eval(1)
+						if k, err := sm2.NewPrivateKeyFromInt(neg); err == nil {
+							t.Fail("ctor/sm2.NewPrivateKeyFromInt/accepts-negative", "NewPrivateKeyFromInt(%d) accepted (D=%x); documented range is [1, n-2]", neg, k.D)
+						}
+					})
 				}
 				t.Guard("ctor/sm2.NewPrivateKeyFromInt", func() {
 					k, err := sm2.NewPrivateKeyFromInt(new(big.Int).Set(s.v))
